@@ -334,6 +334,31 @@ def _check_index(ck: Checker, m: TransferModel, success_edge) -> None:
                         if norm(b.src) == lv and b.unconditional and norm(b.elt).endswith(".value") and h.id in b.node.loops:
                             a1ok = True
                 ok = a0ok and a1ok
+            elif h.kind == "for" and isinstance(h.ast.target, ast.Tuple) and len(h.ast.target.elts) == 2 and all(isinstance(e_, ast.Name) for e_ in h.ast.target.elts) \
+                    and isinstance(h.ast.iter, ast.Name) and h.ast.iter.id == m.success_list:
+                # the success list holds pairs (directory, its entry ids computed once): `for d, ids in done: update([d...], {i.value for i in ids})`
+                from ..prov import scope_of as _scope_of
+
+                lv, idsv = h.ast.target.elts[0].id, h.ast.target.elts[1].id
+                apps = [c2 for n_ in g.nodes.values() for c2 in calls_at(n_) if is_method_call(c2, "append") and norm(c2.func.value) == m.success_list]
+                pair_ok = bool(apps)
+                for c2 in apps:
+                    v = c2.args[0] if c2.args else None
+                    if not (isinstance(v, ast.Tuple) and len(v.elts) == 2 and isinstance(v.elts[1], ast.Name)):
+                        pair_ok = False
+                        continue
+                    ds_ = [d_ for d_ in _scope_of(move).get(v.elts[1].id) if d_.kind in ("assign", "annassign")]
+                    sc = ds_[0].value if len(ds_) == 1 else None
+                    pair_ok = pair_ok and isinstance(sc, ast.SetComp) and len(sc.generators) == 1 and not sc.generators[0].ifs and norm(sc.generators[0].iter) == norm(v.elts[0]) \
+                        and isinstance(sc.generators[0].target, ast.Tuple) and isinstance(sc.elt, ast.Name) and norm(sc.generators[0].target.elts[-1]) == sc.elt.id
+                a0ok = any(norm(z) in (f"[{lv}.hash_info.value]", f"[{lv}.oid]") for z in [a0] + expand1(prog, move, a0, levels=3))
+                a1ok = False
+                for alt in expand(prog, move, a1):
+                    if isinstance(alt, (ast.SetComp, ast.ListComp, ast.GeneratorExp)):
+                        gen = alt.generators[0]
+                        if norm(gen.iter) == idsv and not gen.ifs and len(alt.generators) == 1 and norm(alt.elt) == f"{norm(gen.target)}.value":
+                            a1ok = True
+                ok = pair_ok and a0ok and a1ok
         ck.require(ok, "C04.index", move, x,
                    "indexed directory comes from the success list and the indexed files are that same directory's listing",
                    f"dest_index.update({norm(a0) if a0 is not None else ''}, {norm(a1) if a1 is not None else ''}) does not pair a successfully sent directory with its own complete listing",
